@@ -9,7 +9,8 @@ Require Import Calc.Base Calc.Bytecode Calc.Value Calc.FloatText Calc.Ast Calc.C
 Require Import Lia.
 Open Scope Z_scope.
 
-Definition is_bname (g : string) : bool := match bop_of_name g with Some _ => true | None => false end.
+Definition is_bname (g : string) : bool :=
+  match bop_of_name g with Some _ => true | None => String.eqb g "read" end.
 
 (* an expression that does not mention a built-in name *)
 Fixpoint nobe (e : node) : bool :=
@@ -26,13 +27,14 @@ Fixpoint nobe (e : node) : bool :=
 (* a statement that mentions built-in names only as the callee of nm(e) *)
 Fixpoint nobs (t : node) : bool :=
   match t with
-  | NAssign (NName g) e => negb (is_bname g) && nobe e
+  | NAssign (NName g) e => negb (is_bname g) && (if pure e then nobe e else nobs e)
   | NBlock l => forallb nobs l
   | NIf c b => nobe c && nobs b
   | NIfElse c a b => nobe c && nobs a && nobs b
   | NWhile c b => nobe c && nobs b
   | NWrite e => nobe e
   | NCall (NName nm) [e] => nobe e
+  | NCall (NName nm) [] => true
   | _ => nobe t
   end.
 
@@ -137,13 +139,22 @@ Proof.
   - (* NAssign *)
     destruct t1; try discriminate Hw. cbn [wstmt] in Hw. unfold assign_ok in Hw.
     cbn [nobs] in Hn. apply andb_prop in Hn. destruct Hn as [Hn1 Hn2]. apply negb_true_iff in Hn1.
-    cbn [ssem] in Hs |- *. destruct (Nat.leb (height t2) n); [|discriminate Hs].
-    injection Hs as <- <-. cbn [sem_simple]. rewrite <- (den_same _ _ Hg t2 Hw Hn2).
-    destruct (den (w_glob W1) t2) as [x|err]; cbn [fst snd].
-    + destruct (is_nil x); cbn [fst snd].
+    cbn [ssem] in Hs |- *. destruct (pure t2) eqn:Hp2.
+    + destruct (Nat.leb (height t2) n); [|discriminate Hs].
+      injection Hs as <- <-. cbn [sem_simple]. rewrite <- (den_same _ _ Hg t2 Hp2 Hn2).
+      destruct (den (w_glob W1) t2) as [x|err]; cbn [fst snd].
+      * destruct (is_nil x); cbn [fst snd].
+        -- eexists. split; [reflexivity|]. rewrite !wglob_same. exact HR.
+        -- eexists. split; [reflexivity|]. apply wrel_glob; assumption.
       * eexists. split; [reflexivity|]. rewrite !wglob_same. exact HR.
-      * eexists. split; [reflexivity|]. apply wrel_glob; assumption.
-    + eexists. split; [reflexivity|]. rewrite !wglob_same. exact HR.
+    + cbn [orb] in Hw. assert (Hw2 : wstmt t2 = true) by (destruct t2; try discriminate Hw; exact Hw).
+      destruct (ssem Bf1 n W1 t2) as [[W1a [y|err]]|] eqn:E2; try discriminate Hs.
+      * destruct (IH t2 W1 W2 W1a (Ok y) Hw2 Hn2 HR E2) as (W2a & E2' & HR2). rewrite E2'.
+        destruct (is_nil y); injection Hs as <- <-.
+        -- exists W2a. split; [reflexivity|exact HR2].
+        -- eexists. split; [reflexivity|]. apply wrel_glob; assumption.
+      * injection Hs as <- <-. destruct (IH t2 W1 W2 W1a (Fail err) Hw2 Hn2 HR E2) as (W2a & E2' & HR2). rewrite E2'.
+        exists W2a. split; [reflexivity|exact HR2].
   - (* NBlock *)
     cbn [wstmt] in Hw. cbn [nobs] in Hn. rewrite ssem_block in Hs |- *.
     assert (Hall : forallb wstmt l = true) by (destruct l; [discriminate Hw|exact Hw]).
@@ -161,15 +172,26 @@ Proof.
            exists W2a. split; [reflexivity|exact HR2].
   - (* NCall *)
     destruct t; try discriminate Hw. destruct args as [|a [|a2 l]]; try discriminate Hw.
-    cbn [wstmt] in Hw. cbn [nobs] in Hn. cbn [ssem] in Hs |- *.
-    destruct (bop_of_name n0) as [b|] eqn:Eb; [|discriminate Hw].
-    assert (Hbn : is_bname n0 = true) by (unfold is_bname; rewrite Eb; reflexivity).
-    rewrite <- (Hb n0 Hbn).
-    destruct (Nat.leb (height a) n && Nat.leb 2 n && fun_eqb (gval (w_glob W1) n0) (Bf1 n0)); [|discriminate Hs].
-    rewrite <- (den_same _ _ Hg a Hw Hn). destruct (den (w_glob W1) a) as [x|err].
-    + injection Hs as <- <-. destruct (bop_sem_rel Bf1 Bf2 b W1 W2 x HR) as [E1 E2]. rewrite E1.
-      eexists. split; [reflexivity|exact E2].
-    + injection Hs as <- <-. exists W2. split; [reflexivity|exact HR].
+    + (* read() *)
+      cbn [wstmt is_bcall] in Hw. cbn [ssem] in Hs |- *. rewrite Hw in Hs |- *. cbn [andb] in Hs |- *.
+      apply String.eqb_eq in Hw. subst n0.
+      assert (Hbn : is_bname "read" = true) by reflexivity.
+      rewrite <- (Hb "read" Hbn).
+      destruct (Nat.leb 1 n && fun_eqb (gval (w_glob W1) "read") (Bf1 "read")); [|discriminate Hs].
+      injection Hs as <- <-. unfold read_sem. rewrite <- Hi.
+      destruct (w_in W1) as [|l0 rest] eqn:Ein; cbn [fst snd].
+      * eexists. split; [reflexivity|]. constructor; cbn [wbump w_glob w_out w_in]; try assumption.
+        rewrite <- Hi, Ein. reflexivity.
+      * eexists. split; [reflexivity|]. constructor; cbn [wbump w_glob w_out w_in]; try assumption. reflexivity.
+    + cbn [wstmt is_bcall] in Hw. cbn [nobs] in Hn. cbn [ssem] in Hs |- *.
+      destruct (bop_of_name n0) as [b|] eqn:Eb; [|discriminate Hw].
+      assert (Hbn : is_bname n0 = true) by (unfold is_bname; rewrite Eb; reflexivity).
+      rewrite <- (Hb n0 Hbn).
+      destruct (Nat.leb (height a) n && Nat.leb 2 n && fun_eqb (gval (w_glob W1) n0) (Bf1 n0)); [|discriminate Hs].
+      rewrite <- (den_same _ _ Hg a Hw Hn). destruct (den (w_glob W1) a) as [x|err].
+      * injection Hs as <- <-. destruct (bop_sem_rel Bf1 Bf2 b W1 W2 x HR) as [E1 E2]. rewrite E1.
+        eexists. split; [reflexivity|exact E2].
+      * injection Hs as <- <-. exists W2. split; [reflexivity|exact HR].
   - (* NWrite *)
     cbn [wstmt] in Hw. cbn [nobs] in Hn. cbn [ssem] in Hs |- *. destruct (Nat.leb (height t) n); [|discriminate Hs].
     rewrite <- (den_same _ _ Hg t Hw Hn). destruct (den (w_glob W1) t) as [x|err]; injection Hs as <- <-.
